@@ -34,8 +34,14 @@ xml_char_no_cr = st.characters(blacklist_categories=("Cs",), blacklist_character
 _interesting = st.sampled_from(["<", ">", "&", "'", '"', "]]>", "&amp;", "<!--", "\t", "\n", " ", "  x ", "é", "日本", "\U0001F600", "a b", "x\ny"])
 
 
+_cr_rich = st.sampled_from(["a\r", "\r", "\r\r", "x\r\ry", "a\rb", "\r\n", "line one\rline two"])
+
+
 def xml_text(min_size=0, max_size=8, cr=False):
     ch = xml_char if cr else xml_char_no_cr
+    if cr:
+        return st.one_of(st.text(ch, min_size=min_size, max_size=max_size), _cr_rich.filter(lambda s: len(s) >= min_size),
+                         st.lists(st.one_of(_interesting, st.text(ch, max_size=3)), min_size=max(1, min_size), max_size=3).map("".join))
     return st.one_of(st.text(ch, min_size=min_size, max_size=max_size),
                      st.lists(st.one_of(_interesting, st.text(ch, max_size=3)), min_size=max(1, min_size), max_size=3).map("".join))
 
@@ -118,7 +124,7 @@ def _texty(s, qname_too=False):
 
 
 HOSTILE = contextvars.ContextVar("hostile_text", default=False)
-_any_text = st.one_of(st.text(max_size=6), st.sampled_from(["\x00", "a\x0bb", "\ufffe", "\x1f", "ok\x08"]))
+_any_text = st.one_of(st.text(max_size=6), st.sampled_from(["\x00", "a\x0bb", "\ufffe", "\x1f", "ok\x08", "line one\rline two\x0b", "\r\x00", "a\rb\x1f"]))
 
 
 def prim_value(prim, where, cr=False):
@@ -523,7 +529,9 @@ class _Builder:
             n = d(st.integers(2, 3))
             choices, seen_types = [], set()
             # one compound field in six starts with an int choice followed by a bool choice (bool is a subclass of int)
-            planned = [[{"p": "int"}], [{"p": "bool"}]] if d(st.integers(0, 5)) == 0 else []
+            # ... or with a numeric choice followed by a str choice (a str value may look like a number)
+            planned = d(st.sampled_from([[], [], [], [], [], [["int"], ["bool"]], [["int"], ["str"]], [["float"], ["str"]], [["decimal"], ["str"]]]))
+            planned = [[{"p": p} for p in tr] for tr in planned]
             for _ in range(n):
                 tr = planned.pop(0) if planned else self.type_for_element(depth)
                 key = tuple(sorted(str(t) for t in tr))
@@ -625,7 +633,7 @@ def model_specs(draw, opts=None):
     b = _Builder(draw, o)
     root = b.new_class(0, want_text=False if draw(st.integers(0, 9)) else None)
     spec = {"ns": draw(st.sampled_from([None, None, "urn:m"])) if o.namespaces else None,
-            "enums": b.enums, "classes": b.classes, "root": root}
+            "enums": b.enums, "classes": b.classes, "root": root, "json_safe": bool(o.json_safe)}
     normalize_namespaces(spec)
     if o.nesting:
         nest(draw, spec)
@@ -1204,8 +1212,12 @@ def instance_of(draw, spec, cid, cr=False, parent_ns=None):
                     toks = [("t:" + t) if isinstance(t, str) and not _texty(t, qname_too=True) else t for t in toks]
                     return _seq(frozen, toks)
                 v = _nonempty(value_for_types(draw, spec, ch["types"], "elem", cr, frozen, inst_ns), ch, {})
+                if isinstance(v, str) and [t.get("p") for t in ch["types"]] == ["str"] and not spec.get("json_safe") and draw(st.integers(0, 3)) == 0:
+                    # a str value that an earlier numeric choice could also claim: the exact type decides (XML routes only; in JSON
+                    # the value's JSON kind is all there is)
+                    return draw(st.sampled_from(["42", "007", "1e3", "-0", "1.50", "true"]))
                 if isinstance(v, str) and not _texty(v, qname_too=True):
-                    # the serializer routes a value to the first choice whose type accepts it
+                    # the dictionary routes offer a value to the first choice whose type accepts it
                     v = "t: " + v
                 return v
             if f["card"] == "list":
